@@ -21,7 +21,7 @@ logging.disable(logging.WARNING)      # the library logs every call at INFO
 PROP = "C04"
 PROPS_FILES = ["Pms/Props/C04.lean"]
 GENERATORS = ["sq", "wave"]
-RULE = ("seeded trajectories: d∈{2,3} × species K∈1..6 (ids 1..K, every species present, random composition) × N≤26 × 1..3 frames "
+RULE = ("seeded trajectories: d∈{2,3} × species K∈1..6 (ids 1..K, every species present, random composition) × N≤26 (thorough: ≤40) × 1..3 frames "
         "× orthogonal box with pairwise different decimal-grid edges × positions on a decimal grid (also outside the box) × "
         "{explicit integer wave-vector list incl. ±/duplicate/zero vectors, default set from qrange with onlypositive∈{False,True,'x','y','z'}}; "
         "judged only if the int() of numofq is ≥1e-6 from its flip point and distinct |q| are ≥1e-4 apart (exact ℚ check on |n/L|²); "
@@ -52,7 +52,8 @@ def gen_case(rng, tier="quick", force=None):
     K = rng.choice([1, 2, 2, 3, 3, 4, 4, 5, 5, 6])
     if force:
         d, K = force.get("d", d), force.get("K", K)
-    N = rng.randint(K, min(26, K + 18))
+    big = tier == "thorough" and rng.random() < 0.3
+    N = rng.randint(K, K + 34) if big else rng.randint(K, min(26, K + 18))
     T = rng.choice([1, 1, 2, 3])
     while True:
         L = [dec(rng, 3, 9, rng.choice([1, 2, 3])) for _ in range(d)]
@@ -71,7 +72,7 @@ def gen_case(rng, tier="quick", force=None):
     pos = [[[dec(rng, -1.5, float(L[j]) + 1.5, 3) for j in range(d)] for _ in range(N)] for _ in range(T)]
     c = {"d": d, "T": T, "N": N, "K": K, "L": L, "ty": ty, "pos": pos}
     if rng.random() < 0.5:
-        nq = rng.randint(1, 10)
+        nq = rng.randint(1, 24 if big else 10)
         vs = []
         while len(vs) < nq:
             r = rng.random()
@@ -86,13 +87,13 @@ def gen_case(rng, tier="quick", force=None):
             elif r < 0.55:
                 v = [0] * d
             else:
-                v = [rng.randint(-4, 4) for _ in range(d)]
+                v = [rng.randint(-7, 7) if big else rng.randint(-4, 4) for _ in range(d)]
             vs.append(v)
         c["vec"] = vs
     else:
         # pick qrange so that numofq lands in a useful range: numofq = int(qrange·Lmax/π)
         Lmax = max(float(x) for x in L)
-        want = rng.randint(2, 14 if d == 2 else 7) + rng.random()
+        want = rng.randint(2, (22 if big else 14) if d == 2 else (10 if big else 7)) + rng.random()
         if rng.random() < 0.05:
             want = rng.random() * 2       # numofq 0 or 1: empty set
         c["qrange"] = dec(rng, want * math.pi / Lmax, want * math.pi / Lmax, 3)
@@ -378,7 +379,7 @@ def wave_sweep(run):
 
 
 def correspond(run):
-    n = 60 if run.tier == "quick" else 800
+    n = 60 if run.tier == "quick" else 2500
     cases = common.load_corpus(PROP) + [gen_case(run.rng, run.tier) for _ in range(n)]
     dis, mon = run_cases(run, cases)
     wbad = wave_sweep(run)
@@ -518,7 +519,7 @@ def directed_cases(rng):
         for K in (1, 2, 3, 4, 5, 6):
             for _ in range(2):
                 out.append(gen_case(rng, force={"d": d, "K": K}))
-    for d, top in ((2, 12), (3, 7)):
+    for d, top in ((2, 16), (3, 12)):      # h = 5 is the first half-range with a mixed integer-norm vector (0,3,4) in 3-D
         for n in range(0, top + 1):
             for p in ("F", "T", "x", "y", "z"):
                 out.append({"wave": [d, n, p]})
